@@ -20,7 +20,7 @@ import kgen
 ID = 'C06'
 TITLE = 'Switching between rig poses and per-sensor poses never moves a sensor'
 GEN = ['RotMat']
-RULE = ('each case = a rig forest (0..4 rigs, 1..4 members each, members sensors or rigs, nesting <= 3 in quick / <= 11 in thorough, '
+RULE = ('(in-place recovery of `warm` cases runs on a Trajectories object with a history: half inserted, sorted timestamps asked for, the rest added through the dict API) each case = a rig forest (0..4 rigs, 1..4 members each, members sensors or rigs, nesting <= 3 in quick / <= 11 in thorough, '
         'each device on at most one rig; rigs declared bottom-up, top-down or shuffled; plus masts of depth 2..4 (thorough: ..10) declared both ways) and a trajectory over 0..4 timestamps where at each timestamp a set of roots (top rigs, '
         'nested rigs, members, free sensors) none below another is posed; with probability 0.4 the Rigs object has a history (another geometry, used for a removal and a recovery, then edited through the nested dict access); op = remove, or recover of a removed trajectory with '
         'masters None, one listed member per rig, or two listed members per rig of which at least one is posed at every timestamp; distinct non-trivial = distinct cases with at least one rig entry')
@@ -294,7 +294,19 @@ def run_real(case):
             before = dump(removed)
             res['kept'] = before
             if case['inplace']:
-                rec = copy.deepcopy(removed)
+                if case.get('warm'):
+                    # history on the Trajectories object: half of its entries inserted, its sorted timestamps asked for (which fills
+                    # a cache), the rest added the way kapture's own csv loader does it (setdefault on the dict): same content
+                    rec = kapture.Trajectories()
+                    entries = [(ts, d, p) for ts, ds in removed.items() for d, p in ds.items()]
+                    half = len(entries) // 2
+                    for ts, d, p in entries[:half]:
+                        rec[ts, d] = copy.deepcopy(p)
+                    rec.timestamps_sorted_list()
+                    for ts, d, p in entries[half:]:
+                        rec.setdefault(ts, {})[d] = copy.deepcopy(p)
+                else:
+                    rec = copy.deepcopy(removed)
                 T.rigs_recover_inplace(rec, rigs, masters)
             else:
                 rec = T.rigs_recover(removed, rigs, masters)
